@@ -51,7 +51,7 @@ theorem mem_insertByLen (c x : Ops α) (l : List (Ops α)) :
   | nil => simp [insertByLen]
   | cons d t ih =>
     unfold insertByLen
-    by_cases h : d.length ≤ c.length
+    by_cases h : d.length < c.length
     · simp only [h, if_true, List.mem_cons]
       rintro (e | m)
       · exact Or.inr (Or.inl e)
